@@ -75,6 +75,7 @@ type Tx struct {
 	Level  int
 	Begin  int
 	Open   bool
+	EndClk int // clock at which the transaction ended (0 while open)
 	writes map[string]wr
 }
 
@@ -403,6 +404,7 @@ func (m *M) Commit(tx int) Err {
 		return ErrTxNotFound
 	}
 	t.Open = false
+	t.EndClk = m.tick()
 	conflict := false
 	if t.Level == RR || t.Level == SER {
 		for k := range t.writes {
@@ -451,6 +453,7 @@ func (m *M) Rollback(tx int) Err {
 		return OK
 	}
 	t.Open = false
+	t.EndClk = m.tick()
 	t.writes = map[string]wr{}
 	m.dropLive(tx)
 	return OK
@@ -499,6 +502,7 @@ func (m *M) Reopen() {
 	for id, t := range m.txs {
 		if t.Open {
 			t.Open = false
+			t.EndClk = m.tick()
 			t.writes = map[string]wr{}
 			m.dropLive(id)
 		}
